@@ -212,6 +212,7 @@ pub struct Out {
     pub later_await: u64,
     pub watchdog: bool,
     pub excluded_known: u64,
+    pub multi: u64,
 }
 
 fn describe(a: &Projection, b: &Projection) -> (&'static str, String) {
@@ -240,7 +241,7 @@ fn describe(a: &Projection, b: &Projection) -> (&'static str, String) {
 pub fn eval(inp: &Input, budget: usize) -> Out {
     let base = run(&inp.case);
     let pw = project(&base);
-    let mut out = Out { violations: vec![], variants: 0, after_bytes: 0, later_await: 0, watchdog: base.watchdog, excluded_known: 0 };
+    let mut out = Out { violations: vec![], variants: 0, after_bytes: 0, later_await: 0, watchdog: base.watchdog, excluded_known: 0, multi: 0 };
     if let Some(p) = &base.panic {
         out.violations.push(Violation { prop: "PANIC", sig: format!("panic/{}", p.rsplit(" @ ").next().unwrap_or("")), detail: p.clone() });
         return out;
@@ -277,7 +278,9 @@ pub fn eval(inp: &Input, budget: usize) -> Out {
             cands = picked;
         }
     }
+    let mut tried: Vec<(usize, usize, u16)> = Vec::new();
     for (ci, si, k) in cands {
+        tried.push((ci, si, k));
         let vcase = set_cancel(&inp.case, (ci, si), k);
         let t = run(&vcase);
         out.variants += 1;
@@ -385,6 +388,9 @@ pub fn run_check(ctx: &Ctx) -> i32 {
         if inp.case.conns.len() > 1 {
             classes.push("two-connections");
         }
+        if o.multi > 0 {
+            classes.push("two-operations-cancelled-in-one-run");
+        }
         Eval { nontrivial: o.after_bytes > 0 || o.later_await > 0, violations: o.violations, classes, watchdog: o.watchdog }
     });
     finish(
@@ -392,7 +398,7 @@ pub fn run_check(ctx: &Ctx) -> i32 {
         agg,
         Report {
             level: "exploration",
-            rule: "random program of 1-2 connections x 1-9 steps (QoS 1/2 publishes, subscribe, unsubscribe, poll, recv, drive, broker deliveries of all QoS, final disconnect) against a reactive broker (acks every complete packet), pend-first transport with 1-byte / small partial writes so that every read, every accepted byte, every flush is an await point; await points counted in an uncancelled run; then each (operation, await point) pair - all of them when <= budget (quick 40, thorough 160), a generated sample otherwise - is run with that operation dropped there and the connection driven to idle. Oracle: per-transport sequence of request packets (DUP masked), per-transport sequence of PUBACK/PUBREC/PUBREL/PUBCOMP, sequence of delivered messages and final quiescence equal the uncancelled twin, or the twin without the operation if none of its bytes had been accepted. Non-trivial = a cancellation after >= 1 byte of the operation was accepted, or at a second/later await point; distinct = distinct (program, selectors).".into(),
+            rule: "random program of 1-2 connections x 1-9 steps (QoS 1/2 publishes, subscribe, unsubscribe, poll, recv, drive, broker deliveries of all QoS, final disconnect) against a reactive broker (acks every complete packet), pend-first transport with 1-byte / small partial writes so that every read, every accepted byte, every flush is an await point; await points counted in an uncancelled run; then each (operation, await point) pair - all of them when <= budget (quick 40, thorough 160), a generated sample otherwise - is run with that operation dropped there and the connection driven to idle. Oracle: per-transport sequence of request packets (DUP masked), per-transport sequence of PUBACK/PUBREC/PUBREL/PUBCOMP, sequence of delivered messages and final quiescence equal the uncancelled twin, or the twin without the operation if it left no trace; additionally a thinned set of pairs of cancellations in one run is compared against the four with/without combinations. Non-trivial = a cancellation after >= 1 byte of the operation was accepted, or at a second/later await point; distinct = distinct (program, selectors).".into(),
             assumptions: vec![
                 "QoS 0 publish is documented as not cancel-safe and is never cancelled".into(),
                 "local in-flight limits are never reached (<= 5 retained requests per connection), so acceptance does not depend on acknowledgement timing".into(),
